@@ -400,8 +400,11 @@ class NodeClass:
 
     def evaluate(self, environment):
         result = ValueObject()
+        # the members are definitions of the class, not of the scope the
+        # class is defined in
+        classEnv = environment.newEnv()
         for member in self.members:
-            result.addItem(member.identifier, member.evaluate(environment))
+            result.addItem(member.identifier, member.evaluate(classEnv))
         environment.put(self.identifier, result)
         return result
 
